@@ -237,7 +237,15 @@ def kraus_valid(repo: Repo) -> List[Ob]:
 
         def is_dim_test(e):
             t = src(e)
-            return ".shape" in t and isinstance(e, (ast.Compare, ast.UnaryOp, ast.BoolOp))
+            if ".shape" in t and isinstance(e, (ast.Compare, ast.UnaryOp, ast.BoolOp)):
+                return True
+            # any(op.shape != (d, d) for op in operators) / not all(op.shape == (d, d) for op in operators)
+            inner = e.operand if isinstance(e, ast.UnaryOp) and isinstance(e.op, ast.Not) else e
+            if isinstance(inner, ast.Call) and isinstance(inner.func, ast.Name) and inner.func.id in ("any", "all") and len(inner.args) == 1 \
+                    and isinstance(inner.args[0], (ast.GeneratorExp, ast.ListComp)) and isinstance(inner.args[0].elt, (ast.Compare, ast.UnaryOp, ast.BoolOp)) \
+                    and ".shape" in src(inner.args[0].elt):
+                return True
+            return False
 
         def is_ident_test(e):
             return any(isinstance(x, ast.Call) and (src(x.func).split(".")[-1] == "kraus_identity_check") for x in [e] + list(ast.walk(e)))
